@@ -1,5 +1,6 @@
 //! C01 – single-bar redraw integrity.  Correspondence with model/Sys.v (exact TermLike call
-//! traces + getters, hashed per op) and a direct oracle on a vt100 screen:
+//! traces + getters, hashed per op) and a direct oracle on the harness reference terminal `Vt`
+//! (validated against the vt100 crate by the TermCases below and by bin termcheck):
 //! after every painted draw   screen = wrap(log) ++ wrap(frame),   and at the end ordinary output
 //! starts on a fresh line below the frame.
 use verif_harness::spy::TOp;
@@ -37,7 +38,9 @@ fn gen_op(r: &mut Rng, w: usize) -> Op {
 
 pub fn gen_case(r: &mut Rng, big: bool) -> Case {
     let w = *r.pick(&[1u16, 2, 3, 4, 5, 7, 10, 20, 80]);
-    let h = *r.pick(&[60u16, 200]);
+    // mostly tall terminals (the proviso Fits), but also heights close to the frame's rows: the oracle
+    // stops a history at the first frame that does not fit (outside the proviso; bin c19 covers those)
+    let h = *r.pick(&[60u16, 200, 60, 200, 24, 10, 6, 4]);
     let target = if r.chance(1, 5) {
         TInit::Term(Some(*r.pick(&[1u8, 20, 255])))
     } else {
@@ -72,6 +75,11 @@ pub fn gen_case(r: &mut Rng, big: bool) -> Case {
 }
 
 const WILD: char = '\u{1}';
+
+thread_local! {
+    /// the last history judged by `oracle` left the proviso Fits (a painted frame taller than the terminal)
+    static LEFT_FITS: std::cell::Cell<bool> = std::cell::Cell::new(false);
+}
 
 /// independent rendering of the template family from the public getters
 fn render_expected(t: &[TPart], g: &Getters) -> Vec<String> {
@@ -240,6 +248,7 @@ fn oracle(case: &Case, obs: &[StepObs]) -> (u64, Option<(String, String)>) {
         };
         frame = if hidden { vec![] } else { render_expected(&tmpl, &g) };
         if height(&frame, w) > case.h as usize {
+            LEFT_FITS.with(|c| c.set(true));
             return (checked, None); // frame does not fit: outside C01's proviso (C19 covers it)
         }
         let mut want: Vec<String> = vec![];
@@ -414,7 +423,9 @@ fn main() {
     for case in &cases {
         let obs = run_case(case);
         let desc = describe(case);
+        LEFT_FITS.with(|c| c.set(false));
         let (checked, bad) = oracle(case, &obs);
+        s.count(&format!("H:{}:{}", case.h, if LEFT_FITS.with(|c| c.get()) { "left-Fits" } else { "inside-Fits" }));
         checked_total += checked;
         if let Some((class, detail)) = bad {
             s.fail(&class, detail, desc.clone());
@@ -423,6 +434,7 @@ fn main() {
             s.count(&format!("op:{}", o.name()));
         }
         s.count(&format!("W:{}", case.w));
+        s.count(&format!("H:{}", case.h));
         s.count(&format!("limiter:{}", matches!(case.bars[0].target, TInit::Term(Some(_)))));
         let painted = obs.iter().filter(|o| o.emitted.iter().any(|x| *x == TOp::Flush)).count();
         s.count_n("painted_draws", painted as u64);
